@@ -8,7 +8,6 @@ import (
 	"fmt"
 
 	"wa-lang.org/wa/internal/ast"
-	"wa-lang.org/wa/internal/token"
 )
 
 func (p *printer) printNode(node interface{}) error {
@@ -39,15 +38,7 @@ func (p *printer) printNode(node interface{}) error {
 			p.print(d.Pos(), "BadDecl")
 
 		case *ast.GenDecl:
-			p.setComment(d.Doc)
-			assert(len(d.Specs) == 1)
-			if s, ok := d.Specs[0].(*ast.ValueSpec); ok {
-				assert(d.Tok == token.VAR)
-				p.print(d.Pos(), token.Zh_设定, token.K_点)
-				p.spec_ValueSpec(s, 1, true)
-			} else {
-				panic("unreachable")
-			}
+			p.localGenDecl(d)
 
 		case *ast.FuncDecl:
 			panic("unreachable")
